@@ -42,7 +42,7 @@ EmptySub(ro) == [ro EXCEPT !.hasSub = FALSE, !.step = 0, !.state = "", !.next = 
 
 GoneRo == [exists |-> FALSE, deleting |-> FALSE, finalizer |-> FALSE, condFresh |-> FALSE, hasSub |-> FALSE, hashOk |-> FALSE,
            hashSet |-> FALSE, fresh |-> FALSE, phase |-> "", reason |-> "", treason |-> "", succeeded |-> "", state |-> "",
-           fstep |-> "", rid |-> "", step |-> 0, next |-> 0, canaryRev |-> 0, stableRev |-> 0, podHash |-> 0,
+           fstep |-> "", rid |-> "", aux |-> "", step |-> 0, next |-> 0, canaryRev |-> 0, stableRev |-> 0, podHash |-> 0,
            thrKind |-> "none", thrVal |-> 0]
 
 GoneBr == [exists |-> FALSE, deleting |-> FALSE, finalizer |-> FALSE, planOk |-> FALSE, hashOk |-> FALSE, obsGenOk |-> FALSE,
@@ -604,7 +604,7 @@ StepSet(p, a) ==
     [] OTHER -> UserSet(p, a)
 
 \* the fields the model claims (everything except ghost history, budgets and rollout-id strings)
-ModelView(s) == [ro |-> [s.ro EXCEPT !.rid = ""], br |-> [s.br EXCEPT !.rid = "", !.obsRid = ""],
+ModelView(s) == [ro |-> [s.ro EXCEPT !.rid = "", !.aux = ""], br |-> [s.br EXCEPT !.rid = "", !.obsRid = ""],
                  \* pod labels are decided by LabelPatch.tla (C12); the closed-loop model only reads the count
                  wl |-> [s.wl EXCEPT !.lab = <<>>, !.labelled = 0],
                  net |-> [s.net EXCEPT !.svcSelKeys = 0], mem |-> s.mem, user |-> s.user]
